@@ -43,6 +43,7 @@ func init() {
 			py.MustNewMethod("hcall", hostHcall, 0, "hcall(f, args, kwargs): the embedder calls f through py.Call, handing over its own tuple and dict"),
 			py.MustNewMethod("tick", hostTick, 0, "tick(i): side effect marker"),
 			py.MustNewMethod("tk", hostTk, 0, "tk(i, v): side effect marker i, returns v"),
+			py.MustNewMethod("feed", hostFeed, 0, "feed(line): the embedder types one more line into the interactive session that is executing this call"),
 			py.MustNewMethod("echo", hostEcho, 0, "echo(v): reference-side stand-in for the interactive echo of a nested expression statement"),
 			py.MustNewMethod("libdir", hostLibdir, 0, "libdir(name): absolute path of a scenario directory"),
 			py.MustNewMethod("fs_add", hostFsAdd, 0, "fs_add(relpath): a file of the scenario appears in the file system now"),
@@ -90,6 +91,14 @@ func hostEcho(self py.Object, args py.Tuple) (py.Object, error) {
 	s := sessionOf(self)
 	if s != nil && s.Hook != nil {
 		s.Hook("echo", args)
+	}
+	return py.None, nil
+}
+
+func hostFeed(self py.Object, args py.Tuple) (py.Object, error) {
+	s := sessionOf(self)
+	if s != nil && s.Hook != nil {
+		s.Hook("feed", args)
 	}
 	return py.None, nil
 }
